@@ -42,7 +42,7 @@ ASSUMPTIONS = ["'BitTorrent-shaped' and 'IPv8-shaped' are read from the property
                "once the outside socket is open, data cells from other IPs that carry the right keys are not restricted by the "
                "statement (only the *opening* is)"]
 REACH = ["emitted_allowed", "blocked_forbidden_outbound", "blocked_forbidden_inbound", "inbound_tunnelled_allowed",
-         "null_destination_dropped", "domain_resolved", "domain_failed", "ipv6_emitted", "colluder_refused", "queued_before_open", "null_destination_as_host_name", "reentry_through_own_circuit", "lookalike_twins_back_to_back", "previous_hop_known_under_another_address",
+         "null_destination_dropped", "domain_resolved", "domain_failed", "ipv6_emitted", "colluder_refused", "queued_before_open", "null_destination_as_host_name", "reentry_through_own_circuit", "lookalike_twins_back_to_back", "previous_hop_known_under_another_address", "outside_socket_open_failed", "colluder_refused_after_failed_open",
          "flagset:0", "flagset:bt", "flagset:ipv8", "flagset:bt+ipv8"]
 
 BT, IPV8F, RELAY, SPEED = 2, 4, 1, 8
@@ -126,12 +126,17 @@ def cases(tier: str, base_seed: int):  # noqa: ANN201
             n += 1
             yield {"seed": base_seed + n, "knobs": {}, "flagset": fs, "relay": True, "hops": 1,
                    "plan": {"mode": "sweep2", "lo": 0, "hi": 6}}      # 0x00..0x05 heads: tracker / IPv8 / uTP-type-0 region
+    for fs in range(4):
+        for hops in (1, 2):
+            n += 1
+            yield {"seed": base_seed + n, "knobs": {}, "flagset": fs, "relay": True, "hops": hops, "plan": {"mode": "grid"},
+                   "open_fails": 1 + (fs + hops) % 2}
     for i in itertools.count():
         seed = base_seed + 5000 + i
         rng = random.Random(f"c06/{seed}")
         yield {"seed": seed, "flagset": rng.randrange(4), "relay": rng.random() < 0.7, "hops": rng.choice([1, 2]),
                "knobs": {"lat_jit": rng.choice([0.0, 0.02]), "dup": rng.choice([0.0, 0.05]), "dns_latency": (0.001, rng.choice([0.05, 3.0]))},
-               "plan": {"mode": "sample", "n": rng.choice([50, 200, 600])}}
+               "plan": {"mode": "sample", "n": rng.choice([50, 200, 600])}, "open_fails": rng.choice([0, 0, 0, 0, 1, 2])}
 
 
 def execute(case: dict) -> dict:  # noqa: C901, PLR0915
@@ -180,6 +185,50 @@ def execute(case: dict) -> dict:  # noqa: C901, PLR0915
             return
         st["circ"] = circ
         plan = case["plan"]
+        if case.get("open_fails"):
+            # --- fault: the operating system refuses the outside sockets (EMFILE) when the previous hop's first data enables them;
+            # afterwards a correctly encrypted cell for the circuit arrives from ANOTHER address: it must not (re)open them
+            from simkit.core import NODE
+            exit_cid = circ.circuit_id
+            if hops == 2:
+                rel = r.ov.relay_from_to.get(circ.circuit_id)
+                exit_cid = rel.circuit_id if rel is not None else None
+            left = {"n": int(case["open_fails"])}
+            orig_cde = net.create_datagram_endpoint
+
+            def failing(factory, local_addr, sock, _o=orig_cde):  # noqa: ANN001, ANN202
+                if NODE.get() == x.name and left["n"] > 0:
+                    left["n"] -= 1
+                    world.fault("socket_open_emfile")
+                    raise OSError(24, "Too many open files")
+                return _o(factory, local_addr, sock)
+            net.create_datagram_endpoint = failing
+            ok_payloads = [p for p in (b"d" + b"6:canary" + b"e", b"\x00\x02" + b"\x77" * 30) if allowed(fs, p, own_prefix)]
+            st["payloads"] = []
+            for p in ok_payloads:
+                o.call(o.ov.send_data, circ.hop.address, circ.circuit_id, UDPv4Address("9.9.9.9", 7000), ("0.0.0.0", 0), p)
+            await asyncio.sleep(1.0)
+            es = x.ov.exit_sockets.get(exit_cid) if exit_cid is not None else None
+            if es is not None and ok_payloads and world.faults.get("socket_open_emfile"):
+                world.probe("outside_socket_open_failed")
+                from ipv8.messaging.serialization import Serializer
+                ser = Serializer()
+                n_before = len([t for t in net.all_transports if t.owner == x.name and t.port != x.port])
+                for k, p in enumerate(ok_payloads * 2):
+                    plain = b"\x01" + ser.pack("address", ("9.9.9.9", 7000)) + ser.pack("address", ("0.0.0.0", 0)) + p
+                    body = circ.hops[-1].keys.encrypt_str(plain, 0)
+                    net.inject(col.address, x.address, own_prefix + b"\x00" + exit_cid.to_bytes(4, "big") + b"\x00\x00" + body,
+                               delay=0.001 + 0.3 * k, label="colluder")
+                await asyncio.sleep(2.5)
+                opened = [t for t in net.all_transports if t.owner == x.name and t.port != x.port]
+                if len(opened) > n_before:
+                    c.violate("open_only_by_previous_hop", "outside_socket_opened_by_foreign_ip",
+                              f"the outside sockets could not be opened when the previous hop's data arrived (EMFILE); {len(opened) - n_before} "
+                              f"were opened later by a data cell from {col.address} (previous hop is {prev.address})")
+                else:
+                    world.probe("colluder_refused_after_failed_open")
+            net.create_datagram_endpoint = orig_cde
+            return
         if "payloads" in case:
             payloads = [bytes.fromhex(p) for p in case["payloads"]]
         elif plan["mode"] == "grid":
